@@ -72,11 +72,16 @@ func (w *World) isVee(id int) bool {
 	return w.C.Universe && n.Type != "" && w.C.GoType[n.Type] == "Vee"
 }
 
+// Label is a string type of the application's own.
+type Label string
+
 // Computed (method backed) fields. Their GraphQL names are the lower case method names.
 func (s *Slots) Echo(str string) string         { return "echo:" + str }
 func (s *Slots) Pick(str string, b bool) string { return str + ":" + strconv.FormatBool(b) }
 func (s *Slots) Greet() string                  { return "hi:" + s.Str }
 func (s *Slots) HTMLID() string                 { return "html:" + s.Str }
+func (s *Slots) Tint(c string) string           { return "tint:" + c }
+func (s *Slots) Tag(l Label) string             { return "tag:" + string(l) }
 func (s *Slots) Flip(b bool) bool               { return !b }
 func (s *Slots) Swap(b bool, str string) string { return str + "/" + strconv.FormatBool(b) }
 func (s *Slots) Peer() interface{}              { return s.Obj }
@@ -155,7 +160,7 @@ func slotFor(c *Case, typeName, field string) string {
 }
 
 // computedSlots are backed by methods; the rest by struct fields.
-var computedSlots = map[string]bool{"echo": true, "pick": true, "greet": true, "flip": true, "swap": true, "peer": true, "peers": true, "count": true, "risky": true, "htmlid": true}
+var computedSlots = map[string]bool{"echo": true, "pick": true, "greet": true, "flip": true, "swap": true, "peer": true, "peers": true, "count": true, "risky": true, "htmlid": true, "tint": true, "tag": true}
 
 // universeSlotOf is set per world so that UniverseCompute can translate renamed fields.
 var universeSlotOf func(typeName, field string) string
@@ -180,6 +185,10 @@ func UniverseCompute(n *hx.Node, fd *hx.Field, args map[string]interface{}) (hx.
 		return hx.Str("hi:" + n.F["__str"].S), true
 	case "htmlid":
 		return hx.Str("html:" + n.F["__str"].S), true
+	case "tint":
+		return hx.Str("tint:" + fmt.Sprint(args["c"])), true
+	case "tag":
+		return hx.Str("tag:" + fmt.Sprint(args["l"])), true
 	case "flip":
 		return hx.Bool(!b), true
 	case "swap":
